@@ -181,7 +181,7 @@ def run(shard, rec):
                 holder['lifted'] = secfld.subfield is not None
             return True
         w0 = sim.World(m, t, no_prss, seed=sseed, policy='eager', clear_caches=True)
-        w0.run(probe)
+        w0.run(probe, cpu_seconds=90)
         if w0.ok_results() is None:
             return 'unsupported', w0
         return holder, w0
